@@ -351,3 +351,110 @@ func EdEncodings(p *EdPoint) [][]byte {
 	}
 	return out
 }
+
+// ---------------------------------------------------------------------------
+// Deviation oracle for known finding C29-K1 (DESIGN.md §2.5): a second,
+// independent verdict function that models EXACTLY the deviation the finding
+// describes - "verification has the semantics of Go's crypto/ed25519 (RFC 8032
+// §5.1.7 as implemented there) instead of ZIP-215":
+//
+//  1. A is decoded the way Go's edwards25519.Point.SetBytes decodes it. Which
+//     non-canonical encodings that accepts is a parameter (EdDecodeRules); the
+//     setting EdGoDecodeRules is established by the self-test against
+//     crypto/ed25519 itself (selftest.go: the chosen setting agrees on every
+//     generated edge case, each of the three other settings is refuted).
+//  2. S MUST be canonical: S < L (Go: sig[63]&224 == 0 and SetCanonicalBytes).
+//  3. k = SHA-512(R_bytes ‖ A_bytes ‖ M) mod L over the bytes as received.
+//  4. R is NEVER decoded. R' = [S]B - [k]A is computed, encoded canonically and
+//     the 32 bytes are compared with sig[:32]: the cofactorLESS equation
+//     [S]B = R + [k]A, and a non-canonically encoded R never matches.
+//
+// The model is written with the same math/big curve arithmetic as the ZIP-215
+// reference and does not call crypto/ed25519: it stays a meaningful description
+// of the known deviation when gossamer changes the library it calls.
+// A verdict of the implementation that differs from ZIP-215 is attributed to
+// C29-K1 iff it equals this model's verdict on the same (A, msg, sig).
+
+// EdDecodeRules parameterises which non-canonical point encodings a decoder accepts.
+type EdDecodeRules struct {
+	NonCanonicalY bool // y in [p, 2^255-1] accepted and reduced mod p
+	ZeroXSign     bool // x = 0 with the sign bit set accepted ("negative zero")
+}
+
+// EdGoDecodeRules is how Go's crypto/ed25519 decodes the public key A: both
+// classes of non-canonical encodings are accepted (validated in SelfTest).
+var EdGoDecodeRules = EdDecodeRules{NonCanonicalY: true, ZeroXSign: true}
+
+// edDecodeWith decodes a point under the given rules (RFC 8032 §5.1.3 when both are false).
+func edDecodeWith(enc []byte, rules EdDecodeRules) (*EdPoint, bool) {
+	if len(enc) != 32 {
+		return nil, false
+	}
+	b := append([]byte{}, enc...)
+	sign := uint(b[31] >> 7)
+	b[31] &= 0x7f
+	y := leInt(b)
+	if y.Cmp(edP) >= 0 {
+		if !rules.NonCanonicalY {
+			return nil, false
+		}
+		y.Sub(y, edP) // y < 2^255 < 2p
+	}
+	x, ok := edRecoverX(y, sign)
+	if !ok {
+		return nil, false
+	}
+	if x.Sign() == 0 && sign == 1 && !rules.ZeroXSign {
+		return nil, false
+	}
+	return edFromAffine(x, y), true
+}
+
+// EdRFCVerdict is the verdict of the RFC 8032 / Go crypto/ed25519 model.
+type EdRFCVerdict struct {
+	Accept bool
+	Reason string // why rejected: length, A_not_decodable, S_ge_L, R_bytes_differ
+	RPrime []byte // canonical encoding of [S]B - [k]A (nil when not computed)
+}
+
+// refVerifyRFC8032 is the deviation model of C29-K1 with Go's decoding of A.
+func refVerifyRFC8032(pub, msg, sig []byte) EdRFCVerdict {
+	return refVerifyRFC8032With(pub, msg, sig, EdGoDecodeRules)
+}
+
+func refVerifyRFC8032With(pub, msg, sig []byte, rules EdDecodeRules) EdRFCVerdict {
+	if len(pub) != 32 || len(sig) != 64 {
+		return EdRFCVerdict{Reason: "length"}
+	}
+	A, ok := edDecodeWith(pub, rules)
+	if !ok {
+		return EdRFCVerdict{Reason: "A_not_decodable"}
+	}
+	S := leInt(sig[32:])
+	if S.Cmp(edL) >= 0 {
+		return EdRFCVerdict{Reason: "S_ge_L"}
+	}
+	k := edHash(sig[:32], pub, msg)
+	rp := edB.Mul(S).Add(A.Neg().Mul(k)).Encode()
+	v := EdRFCVerdict{RPrime: rp}
+	for i := range rp { // bytes of the signature as received, no decoding of R
+		if rp[i] != sig[i] {
+			v.Reason = "R_bytes_differ"
+			return v
+		}
+	}
+	v.Accept = true
+	return v
+}
+
+// EdOrder returns the order (1, 2, 4 or 8) of a small-order point, 0 otherwise.
+func EdOrder(p *EdPoint) int {
+	q := p
+	for o := 1; o <= 8; o *= 2 {
+		if q.IsIdentity() {
+			return o
+		}
+		q = q.Add(q)
+	}
+	return 0
+}
